@@ -1836,6 +1836,12 @@ func phiLowerBound(p *ssa.Phi) (int64, bool) {
 						return b + k, true
 					}
 				}
+				// adding a quantity that is never negative (a decoded rune's width, a length)
+				if nonNegByConstruction(x.Y) {
+					if b, ok := lb(x.X, seen); ok {
+						return b, true
+					}
+				}
 			}
 			return 0, false
 		case *ssa.Phi:
@@ -2145,4 +2151,22 @@ func (c *Ctx) nonNegField(fld *types.Var) bool {
 		c.nonNegMemo[fld] = 2
 	}
 	return okAll
+}
+
+// nonNegByConstruction: the width result of utf8.DecodeRune*/DecodeLastRune*, or a len().
+func nonNegByConstruction(v ssa.Value) bool {
+	if _, ok := isLenCall(v); ok {
+		return true
+	}
+	if e, ok := v.(*ssa.Extract); ok && e.Index == 1 {
+		if call, ok := e.Tuple.(*ssa.Call); ok {
+			if cal := call.Common().StaticCallee(); cal != nil && cal.Pkg != nil && cal.Pkg.Pkg.Path() == "unicode/utf8" {
+				switch cal.Name() {
+				case "DecodeRuneInString", "DecodeRune", "DecodeLastRuneInString", "DecodeLastRune":
+					return true
+				}
+			}
+		}
+	}
+	return false
 }
